@@ -14,7 +14,7 @@ VERIF = Path(__file__).resolve().parents[1]
 REPO = Path(os.environ.get('HOMONIM_REPO', '/repo'))
 OUT = VERIF / 'coq' / 'gen' / 'CoverGen.v'
 sys.path.insert(0, str(VERIF))
-from translate.resolve import Flow      # noqa: E402
+from translate.resolve import Flow, own_returns, parse_source      # noqa: E402
 
 
 class TranslatorError(Exception):
@@ -26,17 +26,16 @@ def U(n):
 
 
 def generate():
-    ut = ast.parse((REPO / 'homonim' / 'utils.py').read_text())
+    ut = parse_source((REPO / 'homonim' / 'utils.py').read_text())
     f = [n for n in ut.body if isinstance(n, ast.FunctionDef) and n.name == 'covers_bounds']
     if len(f) != 1:
         raise TranslatorError('covers_bounds not found')
     f = f[0]
     fl = Flow(f, module=ut, assume_defaults=('tol',))
     im1, im2, exp = fl.params[0], fl.params[1], fl.params[2]
-    rets = [n for n in ast.walk(f) if isinstance(n, ast.Return)]
-    if len(rets) != 1:
-        raise TranslatorError('covers_bounds: one return expected')
-    r = fl.resolve(rets[0].value, rets[0])
+    r = fl.return_expr()        # (several returns: one conditional expression over their path conditions)
+    if r is None:
+        raise TranslatorError('covers_bounds: return value')
     # the window variable: assigned under `with same_orientation_crs_ctx(im1, im2) as (a, b)` and possibly re-assigned by the expansion
     wins = {n.value.id for n in ast.walk(r) if isinstance(n, ast.Attribute) and n.attr in ('row_off', 'col_off', 'height', 'width') and isinstance(n.value, ast.Name)}
     if len(wins) != 1:
@@ -96,6 +95,10 @@ def generate():
             return f'(negb {boolx(n.operand)})'
         if isinstance(n, ast.IfExp) and isinstance(n.body, ast.Constant) and isinstance(n.orelse, ast.Constant) and {n.body.value, n.orelse.value} == {True, False}:
             return boolx(n.test) if n.body.value is True else f'(negb {boolx(n.test)})'
+        if isinstance(n, ast.IfExp):
+            return f'(if {boolx(n.test)} then {boolx(n.body)} else {boolx(n.orelse)})'
+        if isinstance(n, ast.Constant) and n.value in (True, False) and isinstance(n.value, bool):
+            return 'true' if n.value else 'false'
         raise TranslatorError(f'covers_bounds: unsupported decision {U(n)[:160]}')
     # the tolerance is a local constant: resolved into the expression as a literal
     out = []
@@ -123,7 +126,7 @@ def generate():
     pos = f.args.posonlyargs + f.args.args
     dflt = {a_.arg: U(d_) for a_, d_ in zip(pos[len(pos) - len(f.args.defaults):], f.args.defaults)}
     okd = dflt.get(exp) == '(0, 0)'
-    rp = ast.parse((REPO / 'homonim' / 'raster_pair.py').read_text())
+    rp = parse_source((REPO / 'homonim' / 'raster_pair.py').read_text())
     init = [g for c in rp.body if isinstance(c, ast.ClassDef) and c.name == 'RasterPairReader' for g in c.body if isinstance(g, ast.FunctionDef) and g.name == '__init__'][0]
     fli = Flow(init)
     calls = [c for c in ast.walk(init) if isinstance(c, ast.Call) and U(c.func) in ('utils.covers_bounds', 'covers_bounds')]
